@@ -3,9 +3,10 @@
    and ExtrOcamlString (ascii -> char, string -> char list).  No Extract Constant.
    nat, N, positive stay the extracted inductive types. *)
 From Coq Require Extraction ExtrOcamlBasic ExtrOcamlString.
-From FV Require Import Scope Engine.
+From FV Require Import Scope Engine SplitLine.
 Extraction Language OCaml.
 Cd "../ocaml/extracted".
 
 Separate Extraction Engine.program_new Engine.est0 Engine.shape Engine.mkTable Engine.mkCentry
-  Engine.mkBspec Engine.mkItem Engine.mkInfo Scope.depth Engine.yield.
+  Engine.mkBspec Engine.mkItem Engine.mkInfo Scope.depth Engine.yield
+  SplitLine.splitquote SplitLine.splitparen.
